@@ -2289,6 +2289,12 @@ func (h *fsmHandler) loop(ctx context.Context, wg *sync.WaitGroup) {
 		oldState = nextState
 	}
 
+	// the FSM is going away (peer deleted, daemon stopping): an outbound
+	// connection the manager has finished, or is about to hand over, has no
+	// one left to take it
+	if fsm.outgoingConnMgr != nil {
+		fsm.outgoingConnMgr.stop()
+	}
 	select {
 	case conn := <-fsm.connCh:
 		conn.Close()
